@@ -10,6 +10,7 @@ CONSTANTS
   MaxSessions = 2
   Programs <- MCPrograms
   Record = TRUE
+  Fat = FALSE
   MaxCommits = 2
   MaxLog = 2
   MaxOut = 2
